@@ -31,24 +31,26 @@ def scalarFn (name : String) : Option (List Int → Option (Chk (List Int))) :=
   | "rounding::lvl2::use_hint" => some (bin fun a b => (use_hint .l2 a b).map (fun r => [r]))
   | "rounding::lvl3::use_hint" => some (bin fun a b => (use_hint .l3 a b).map (fun r => [r]))
   | "rounding::lvl5::use_hint" => some (bin fun a b => (use_hint .l5 a b).map (fun r => [r]))
+  -- composite used by C15: use_hint((w1·2γ2 + a0) mod q, make_hint(a0, w1)), arguments (a0, w1)
+  | "rounding::lvl2::hint_roundtrip" => some (bin fun a0 w1 => (use_hint .l2 ((w1 * (2 * gamma2Of .l2) + a0) % Q) (make_hint .l2 a0 w1)).map (fun r => [r]))
+  | "rounding::lvl3::hint_roundtrip" => some (bin fun a0 w1 => (use_hint .l3 ((w1 * (2 * gamma2Of .l3) + a0) % Q) (make_hint .l3 a0 w1)).map (fun r => [r]))
+  | "rounding::lvl5::hint_roundtrip" => some (bin fun a0 w1 => (use_hint .l5 ((w1 * (2 * gamma2Of .l5) + a0) % Q) (make_hint .l5 a0 w1)).map (fun r => [r]))
   | _ => none
 
-def mixChk (h : UInt64) : Chk (List Int) → UInt64
-  | .ok l => l.foldl mix h
-  | .error _ => mix h FAULTMARK
-
-/-- checksum of f over [lo, lo+n) with the remaining arguments fixed -/
-partial def sweepChunk (f : List Int → Option (Chk (List Int))) (rest : List Int) (x : Int) (n : Nat) (h : UInt64) : UInt64 :=
-  if n == 0 then h else
+/-- checksum of f over [lo, lo+n) with the remaining arguments fixed; also counts faults -/
+partial def sweepChunk (f : List Int → Option (Chk (List Int))) (rest : List Int) (x : Int) (n : Nat) (h : UInt64) (nf : Nat) : UInt64 × Nat :=
+  if n == 0 then (h, nf) else
   match f (x :: rest) with
-  | some r => sweepChunk f rest (x + 1) (n - 1) (mixChk h r)
-  | none => h
+  | some (.ok l) => sweepChunk f rest (x + 1) (n - 1) (l.foldl mix h) nf
+  | some (.error _) => sweepChunk f rest (x + 1) (n - 1) (mix h FAULTMARK) (nf + 1)
+  | none => (h, nf)
 
 partial def sweepAll (f : List Int → Option (Chk (List Int))) (rest : List Int) (lo hi : Int) (chunk : Nat) (acc : List String) : List String :=
   if lo ≥ hi then acc.reverse else
   let n := min chunk (hi - lo).toNat
-  let h := sweepChunk f rest lo n FNV0
-  sweepAll f rest (lo + n) hi chunk (toString h.toNat :: acc)
+  let (h, nf) := sweepChunk f rest lo n FNV0 0
+  let tok := if nf == 0 then toString h.toNat else toString h.toNat ++ "/" ++ toString nf
+  sweepAll f rest (lo + n) hi chunk (tok :: acc)
 
 def answerScalar (name : String) (args : List String) : Option String := do
   let f ← scalarFn name
